@@ -1,4 +1,5 @@
 import AioslskVerif.Proofs.Transfer
+import AioslskVerif.Proofs.TransferFault
 /-!
 # C03 — transfer state changes always follow the documented state graph
 
@@ -443,6 +444,71 @@ example :
     (load cfg .initializing { remotelyQueued := true } false).cur = .queued ∧
     (load cfg .aborted {} false).f.abortReason = some requestedReason ∧
     events (load cfg .uploading {} true) = [] := by decide
+
+/-- **A removal the file system refuses is not a refusal of the request** (state.py:32-46). Whatever the file
+system answers, `_remove_local_file` of a download that has a `local_path` forgets the path and touches nothing
+else; the file is still there afterwards exactly when it was there and the file system refused (`OSError`, caught
+and logged). No field the state methods go on to read — and nothing that decides whether the method suspends or
+what it returns — depends on the answer. -/
+theorem C03_failed_removal_only_keeps_the_file (cfg : Cfg) (c : Call) (now : Nat) (f : Fields)
+    (hd : cfg.dir = .download) (hp : f.localPath = true) :
+    applyEff cfg c now f .removeLocalFile
+      = { f with localPath := false, fileExists := f.fileExists && f.fsBroken } := by
+  simp only [applyEff, hd, hp, if_true]
+
+/-- the fault is a fact about the world: no effect statement other than the removal looks at it, none changes it,
+and what an effect statement does to the other fields does not depend on it -/
+theorem C03_fs_fault_touches_only_the_file (cfg : Cfg) (c : Call) (now : Nat) (f : Fields) (b : Bool) (e : Eff) :
+    applyEff cfg c now { f with fsBroken := b } e
+      = { applyEff cfg c now f e with
+            fsBroken := b,
+            fileExists := (applyEff cfg c now { f with fsBroken := b } e).fileExists } ∧
+    blocks cfg { f with fsBroken := b } e = blocks cfg f e := by
+  cases e <;> (constructor <;> simp only [applyEff, blocks] <;> (try split) <;> (try split) <;> rfl)
+
+/-- **File-system faults change only what becomes of the file — all op lists.** Take any history and the same
+history with the faults of the file system (`fsFault`) left out: the state, the whole trace — every effect carried
+out, every state change, everything every listener is told, and every answer (`True` / `False` /
+`InvalidStateTransition` / `CancelledError`) —, the lock holder and where it is suspended, the waiters and every
+`Transfer` attribute are the same; only whether the file is still on disk may differ. In particular a request is
+answered `False` with the faults exactly when it is without them: a removal the file system refuses never turns a
+request that has already cancelled tasks or set a timestamp into a refused one. -/
+theorem C03_fs_faults_change_only_the_file (cfg : Cfg) (s : St) (f : Fields) (ops : List XOp) :
+    let x := run cfg (init s f) ops
+    let y := run cfg (init s f) (ops.filter (fun o => !o.isFault))
+    x.cur = y.cur ∧ x.trace = y.trace ∧ x.holder = y.holder ∧ x.waiters = y.waiters ∧ x.created = y.created ∧
+      x.cuts = y.cuts ∧ x.now = y.now ∧
+      ({ x.f with fsBroken := false, fileExists := false } : Fields) = { y.f with fsBroken := false, fileExists := false } := by
+  intro x y
+  have h : calm x = calm y := run_calm_filter cfg ops (init s f) (init s f) rfl
+  have h1 : (calm x).cur = (calm y).cur := by rw [h]
+  have h2 : (calm x).trace = (calm y).trace := by rw [h]
+  have h3 : (calm x).holder = (calm y).holder := by rw [h]
+  have h4 : (calm x).waiters = (calm y).waiters := by rw [h]
+  have h5 : (calm x).created = (calm y).created := by rw [h]
+  have h6 : (calm x).cuts = (calm y).cuts := by rw [h]
+  have h7 : (calm x).now = (calm y).now := by rw [h]
+  have h8 : (calm x).f = (calm y).f := by rw [h]
+  exact ⟨h1, h2, h3, h4, h5, h6, h7, h8⟩
+
+/-- the file system refuses the removal while `abort()` of a DOWNLOADING transfer is suspended in front of it
+(tasks already cancelled, `complete_time` already set): the abort is carried out all the same — `ABORTED`, reason
+set, every listener told `DOWNLOADING → ABORTED`, `True` returned — the path is forgotten and the file stays. The
+request is never answered `False` after it has had effects (`C03_refused_no_effect` holds over op lists with
+`fsFault` in them). -/
+example :
+    let cfg : Cfg := { dir := .download, slowCancel := false, slowFs := true, listeners := [false, false] }
+    let x := run cfg (init .downloading { tasksLive := true, startTime := some 0, localPath := true, fileExists := true })
+      [.call { id := 0, meth := .abort, reason := some 1 }, .fsFault true]
+    x.cur = .downloading ∧ (x.holder.map (·.rest.head?)) = some (some .removeLocalFile) ∧ x.f.tasksLive = false ∧
+      (let y := run cfg x [.resume]
+       y.cur = .aborted ∧ y.holder = none ∧ y.trace.head? = some (.ret 0 true) ∧
+       events y = [(.downloading, .aborted), (.downloading, .aborted)] ∧
+       y.f.localPath = false ∧ y.f.fileExists = true ∧ y.f.abortReason = some 1 ∧
+       -- the same without the fault: the only difference is the file
+       (let z := run cfg (init .downloading { tasksLive := true, startTime := some 0, localPath := true, fileExists := true })
+          [.call { id := 0, meth := .abort, reason := some 1 }, .resume]
+        z.cur = y.cur ∧ z.trace = y.trace ∧ z.f.fileExists = false ∧ z.f.localPath = false)) := by decide
 
 /-- the graph and the table are not trivial: 32 documented pairs, 31 overridden methods -/
 example : edgeCount = 32 ∧ overriddenCount = 31 := by decide
